@@ -346,7 +346,6 @@ pub proof fn lemma_okey_prefix_free(a: PropertyValue, b: PropertyValue)
 //@rewrite "sortable.to_be_bytes()" => "v_u64_to_be_bytes(sortable)"
 //@rewrite "f.to_bits()" => "v_f64_to_bits(*f)"
 //@rewrite "s.len()" => "v_str_len(s)"
-//@rewrite "s.as_bytes()" => "v_str_as_bytes(s)"
 //@rewrite "b.len()" => "v_blob_len(b)"
 //@loop 1 iter it1
 //@| invariant out@ == seq![0x04u8] + stuff(str_bytes(s@).take(it1.index@ as int)),
